@@ -10,6 +10,7 @@ use serde_json::{json, Value};
 
 mod corecmd;
 mod lexcmd;
+mod transpile;
 mod typescmd;
 mod util;
 
@@ -87,6 +88,7 @@ fn main() {
         "core-print" => write_records(&par_map(read_records(), corecmd::print_record)),
         "types-ctx" => write_records(&par_map(read_records(), typescmd::ctx_record)),
         "types-table" => write_records(&par_map(read_records(), typescmd::table_record)),
+        "transpile" => write_records(&par_map(read_records(), transpile::transpile_record)),
         "version" => println!("{}", json!({"harness": 1})),
         _ => {
             eprintln!("usage: vh <lex|...>  (ndjson on stdin)");
